@@ -265,8 +265,32 @@ class Shifted(Objective):
         return self.base.g(x) * self.scale + self.lam * (x - self.c)
 
 
+class Padded(Objective):
+    """base acting on x[idx]; the other variables are ignored by the objective (zero gradient)."""
+
+    def __init__(self, spec):
+        super().__init__(spec["n"])
+        self.idx = np.asarray(spec["idx"], dtype=int)
+        self.base = build_objective(spec["base"])
+        self.name = f"padded({self.base.name})"
+        self.analytic = self.base.analytic
+
+    def f(self, x):
+        return self.base.f(np.asarray(x)[self.idx])
+
+    def g(self, x):
+        out = np.zeros(self.n)
+        out[self.idx] = self.base.g(np.asarray(x, dtype=float)[self.idx])
+        return out
+
+    def fmag(self, x):
+        return self.base.fmag(np.asarray(x, dtype=float)[self.idx])
+
+
 def build_objective(spec: Dict[str, Any]) -> Objective:
     fam = spec["family"]
+    if fam == "padded":
+        return Padded(spec)
     if fam in ("boxqp", "qp_quartic", "qp_softplus"):
         return ConvexQP(spec)
     if fam == "rosenbrock":
